@@ -368,11 +368,63 @@ func typeInvKey(t types.Type) string {
 // the closures under contract do not write them), and every return must
 // establish the clauses. results names the literal's results in the clauses.
 func (e *Engine) VerifyFuncLit(st *State, x *ast.FuncLit, results []string, ensures []contract.Clause) error {
+	return e.VerifyFuncLitInv(st, x, results, ensures, nil)
+}
+
+// VerifyFuncLitInv: as VerifyFuncLit, for closures with captured mutable state.
+// The invariants are obliged where the literal is created; the body is then
+// verified for an arbitrary later call: the captured variables the body
+// assigns are arbitrary values satisfying the invariants, the effect trace of
+// the call starts empty, the invariants are obliged again at every return, and
+// old() in the clauses refers to the state at the start of the call.
+func (e *Engine) VerifyFuncLitInv(st *State, x *ast.FuncLit, results []string, ensures []contract.Clause, invs []contract.Clause) error {
 	sig, ok := e.info().TypeOf(x).(*types.Signature)
 	if !ok {
 		return e.errf(x.Pos(), "function literal without signature")
 	}
 	sub := st.Clone()
+	if len(invs) > 0 {
+		for i, iv := range invs {
+			env := e.newEnv(st, x.Body.Lbrace)
+			v, err := e.evalSpec(env, iv.Expr)
+			if err != nil {
+				return fmt.Errorf("%s:%d: %v", iv.File, iv.Line, err)
+			}
+			name := iv.Name
+			if name == "" {
+				name = fmt.Sprintf("#%d", i+1)
+			}
+			e.oblige(st, "inv-init", "closure-inv:"+name, x.Pos(), v.T)
+		}
+		savedG, savedW := e.ghostMod, e.wholeAssigned
+		e.ghostMod, e.wholeAssigned = map[string]bool{}, map[*types.Var]bool{}
+		mod, heapW := e.assignedIn(x.Body)
+		// only variables declared outside the literal are captured state
+		for v := range mod {
+			if v.Pos() >= x.Pos() && v.Pos() < x.End() {
+				delete(mod, v)
+			}
+		}
+		// element-wise updates of captured maps and slices may change their size
+		for v := range mod {
+			e.wholeAssigned[v] = true
+		}
+		e.havoc(sub, mod, heapW)
+		e.ghostMod, e.wholeAssigned = savedG, savedW
+		if _, ok := sub.named["$trace"]; ok {
+			tr := e.Fresh("trace", smt.V)
+			sub.named["$trace"] = Val{tr, nil}
+			sub.Assume(smt.Eq(smt.App(smt.Int, "s_len", tr), smt.IntLit(0)))
+		}
+		for _, iv := range invs {
+			env := e.newEnv(sub, x.Body.Lbrace)
+			v, err := e.evalSpec(env, iv.Expr)
+			if err != nil {
+				return fmt.Errorf("%s:%d: %v", iv.File, iv.Line, err)
+			}
+			sub.Assume(v.T)
+		}
+	}
 	var argVals []Val
 	for i := 0; i < sig.Params().Len(); i++ {
 		p := sig.Params().At(i)
@@ -391,6 +443,7 @@ func (e *Engine) VerifyFuncLit(st *State, x *ast.FuncLit, results []string, ensu
 	}
 	saved := e.litSig
 	e.litSig = sig
+	callEntry := sub.Clone()
 	outs, err := e.execBlock(sub, x.Body.List)
 	e.litSig = saved
 	if err != nil {
@@ -404,6 +457,20 @@ func (e *Engine) VerifyFuncLit(st *State, x *ast.FuncLit, results []string, ensu
 			continue
 		}
 		env := e.newEnv(o.st, x.Body.Rbrace)
+		if len(invs) > 0 {
+			env.Old = callEntry
+			for i, iv := range invs {
+				v, err := e.evalSpec(env, iv.Expr)
+				if err != nil {
+					return fmt.Errorf("%s:%d: %v", iv.File, iv.Line, err)
+				}
+				name := iv.Name
+				if name == "" {
+					name = fmt.Sprintf("#%d", i+1)
+				}
+				e.oblige(o.st, "inv-step", "closure-inv:"+name, x.Body.Rbrace, v.T)
+			}
+		}
 		for d, as := range e.litArgs {
 			for i, a := range as {
 				env.Bound[fmt.Sprintf("$arg%d_%d", d, i)] = a
